@@ -28,7 +28,7 @@ MANIFEST = {
                   "N <= 4 (winsorize), N <= 4 (ranks)",
 }
 
-STUB_HARNESS = re.compile(r"c20_(half_life_(any|first|tie|wiring)|winsorize|spearman)_")
+STUB_HARNESS = re.compile(r"c20_(half_life_(any|first|tie|wiring)|winsorize(?!_quantile_e2e)|spearman)_")
 
 # failing assertion of an oracle-stub harness (harness regex, assertion regex) -> native witness harness
 WITNESS = [
@@ -65,6 +65,8 @@ def check(v, tier, opts):
                         "tevec::map::MapValidFinal::winsorize (Quantile / Median / Sigma)", "tea_map::MapValidBasic::vclip",
                         "tea_map::MapValidBasic::vshift (wiring / witness harnesses)", "tea_map::MapValidVec::vrank"])
     v.bounds.append("half_life: N in 0..=9, table[lag] any f64 (incl. NaN, +-inf), min_periods omitted or 1..=N+1, L* in 0..=N-1")
+    v.bounds.append("winsorize end to end (nothing stubbed): Quantile method at level 0.25 on [a, null, b] with the null first or in the "
+                    "middle, a and b integers in -8..=8; ranks: average-rank value law on N <= 3 (4 thorough)")
     v.bounds.append("winsorize: N in {0,2,4} quick / 0..=4 thorough, data small integers in [-9,9] or NaN, multiplier k in {0,0.5,..,4} or "
                     "omitted, q in {0,0.05,..,0.5} or omitted, quantile bounds half-integers in [-10,10] or NaN (lower <= upper), "
                     "MAD half-integers in [0,6] or NaN, median in {NaN, 1.5}, (mean, variance) in {(NaN,2.25),(0.5,NaN),(0.5,0),(0.5,EPS),(0.5,2.25)}")
